@@ -222,8 +222,12 @@ func genSet(t *rapid.T, label string) []uint64 {
 func TestC12(t *testing.T) {
 	rep := report.New("C12", "random part: voter sets of size 0..15, ids and indexes from {small, 2^32, MaxUint64-1, MaxUint64}, acks/votes also for non-members; each case is also evaluated through tracker.ProgressTracker (Committed from Match, TallyVotes, QuorumActive from RecentActive, with a learner present); non-trivial = non-empty set and >=2 distinct ack values (or >=1 missing vote); distinct = digest of (sets, acks, votes)")
 	defer rep.Write()
+	rapid.Check(t, c12Prop(rep))
+}
+
+func c12Prop(rep *report.R) func(*rapid.T) {
 	failed := false
-	rapid.Check(t, func(rt *rapid.T) {
+	return func(rt *rapid.T) {
 		in := genSet(rt, "in")
 		out := []uint64(nil)
 		if rapid.Bool().Draw(rt, "joint") {
@@ -363,6 +367,7 @@ func TestC12(t *testing.T) {
 		if c3 := uint64(mc(rin).CommittedIndex(acks)); c3 != uint64(mc(in).CommittedIndex(acks)) {
 			fail("order_independent", "result depends on map insertion order")
 		}
-	})
-	_ = os.Getenv
+	}
 }
+
+var _ = os.Getenv
